@@ -17,21 +17,24 @@ Theorem C59_stable_sort_is_a_sort : sort_spec stable_sorter.
 Proof. exact stable_sorter_spec. Qed.
 Print Assumptions C59_stable_sort_is_a_sort.
 
+(* ... and std::sort's contract applies to every comparator the function uses: each is a strict weak ordering *)
+Theorem C59_comparators_are_strict_weak_orderings :
+  swo cmp_netgroup /\ swo cmp_rev_min_ping /\ swo cmp_tx_time /\ swo cmp_block_relay_only_time /\ swo cmp_block_time /\
+  swo cmp_rev_connected /\ forall is_local network, swo (cmp_network_time is_local network).
+Proof. exact comparators_swo. Qed.
+Print Assumptions C59_comparators_are_strict_weak_orderings.
+
 (* The function always returns (the while loop terminates, the assert holds, front() is applied to
    a non-empty vector). *)
 Theorem C59_never_stuck : forall srt l, sort_spec srt -> exists r, select_node_to_evict srt l = Ok r.
-Proof. intros srt l Hs. exact (select_ok _ (erase_last_k_spec srt Hs) l). Qed.
+Proof. exact sel_never_stuck. Qed.
 Print Assumptions C59_never_stuck.
 
 (* The evicted peer is one of the candidates, has no noban permission and is inbound. *)
 Theorem C59_never_noban_or_outbound : forall srt l c, sort_spec srt ->
   select_node_to_evict srt l = Ok (Some c) ->
   In c l /\ c_noban c = false /\ c_conn_type c = EVICT_CONN_INBOUND.
-Proof.
-  intros srt l c Hs H. destruct (select_some _ (erase_last_k_spec srt Hs) l c H) as (Hin & Hel & _).
-  unfold eligible in Hel. apply andb_true_iff in Hel. destruct Hel as [Hn Hc].
-  split; [exact Hin|]. split; [now destruct (c_noban c) | now apply Z.eqb_eq].
-Qed.
+Proof. exact sel_never_noban_or_outbound. Qed.
 Print Assumptions C59_never_noban_or_outbound.
 
 (* The four rules of the property, comparator form (the strongest): a candidate that every
@@ -44,11 +47,7 @@ Theorem C59_protected_by_rule : forall srt l c, sort_spec srt ->
    surely_last_k cmp_tx_time 4 c (filter eligible l) = true \/
    surely_last_k cmp_block_time 4 c (filter eligible l) = true) ->
   select_node_to_evict srt l <> Ok (Some c).
-Proof.
-  intros srt l c Hs Hp H. destruct (select_some _ (erase_last_k_spec srt Hs) l c H) as (_ & _ & Hr & _).
-  unfold protected_by_rule in Hr. destruct Hp as [Hp|[Hp|[Hp|Hp]]]; rewrite Hp in Hr;
-    repeat rewrite orb_true_r in Hr; discriminate.
-Qed.
+Proof. exact sel_protected_by_rule. Qed.
 Print Assumptions C59_protected_by_rule.
 
 (* The same in the words of the property: among ALL candidates and counting every tie against the
@@ -60,14 +59,7 @@ Theorem C59_protected_among_all_candidates : forall srt l c, sort_spec srt ->
    count_if (fun x => c_last_tx c <=? c_last_tx x) l <= 4 \/
    count_if (fun x => c_last_block c <=? c_last_block x) l <= 4) ->
   select_node_to_evict srt l <> Ok (Some c).
-Proof.
-  intros srt l c Hs Hp. apply C59_protected_by_rule; [exact Hs|].
-  destruct Hp as [Hp|[Hp|[Hp|Hp]]].
-  - left. apply top_netgroup_surely. unfold top_netgroup. now apply Z.leb_le.
-  - right; left. apply top_ping_surely. unfold top_ping. now apply Z.leb_le.
-  - right; right; left. apply top_tx_surely. unfold top_tx. now apply Z.leb_le.
-  - right; right; right. apply top_block_surely. unfold top_block. now apply Z.leb_le.
-Qed.
+Proof. exact sel_protected_among_all. Qed.
 Print Assumptions C59_protected_among_all_candidates.
 
 (* Up to 8 non-tx-relay peers with relevant services are protected by block time. *)
@@ -75,10 +67,7 @@ Theorem C59_protected_block_relay_only : forall srt l c, sort_spec srt ->
   c_relay_txs c = false -> c_relevant c = true ->
   surely_last_k cmp_block_relay_only_time 8 c (filter eligible l) = true ->
   select_node_to_evict srt l <> Ok (Some c).
-Proof.
-  intros srt l c Hs Hr Hv Hp H. destruct (select_some _ (erase_last_k_spec srt Hs) l c H) as (_ & _ & _ & Hb & _).
-  unfold protected_block_relay_only, pred_block_relay_only in Hb. rewrite Hr, Hv, Hp in Hb. discriminate.
-Qed.
+Proof. exact sel_protected_block_relay_only. Qed.
 Print Assumptions C59_protected_block_relay_only.
 
 (* ProtectEvictionCandidatesByRatio on n candidates: it first removes [num] <= n/4 candidates, all of
@@ -92,13 +81,13 @@ Theorem C59_ratio_protection : forall srt l, sort_spec srt ->
     subp (fun c => disadvantaged c = true) cands l /\ num = zlen l - zlen cands /\
     0 <= num <= zlen l / 2 / 2 /\
     zlen (erase_last_k srt cmp_rev_connected (zlen l / 2 - num) pred_all cands) = zlen l - zlen l / 2.
-Proof. intros srt l Hs. exact (protect_by_ratio_ok _ (erase_last_k_spec srt Hs) l). Qed.
+Proof. exact sel_ratio_protection. Qed.
 Print Assumptions C59_ratio_protection.
 
 Theorem C59_ratio_protects_longest_connected : forall srt l c rem, sort_spec srt ->
   protect_by_ratio (erase_last_k srt) l = Ok rem ->
   surely_last_k cmp_rev_connected (zlen l / 2 - zlen l / 2 / 2) c l = true -> ~ In c rem.
-Proof. intros srt l c rem Hs. exact (ratio_protects_longest_connected _ (erase_last_k_spec srt Hs) l c rem). Qed.
+Proof. exact sel_ratio_longest. Qed.
 Print Assumptions C59_ratio_protects_longest_connected.
 
 (* nullopt is returned exactly when the fixed protections leave nothing; never with 29 or more
@@ -107,12 +96,7 @@ Theorem C59_none_iff_nothing_left : forall srt l, sort_spec srt ->
   (select_node_to_evict srt l = Ok None <-> protect_fixed (erase_last_k srt) l = []) /\
   (count_if eligible l <= 20 -> select_node_to_evict srt l = Ok None) /\
   (29 <= count_if eligible l -> exists c, select_node_to_evict srt l = Ok (Some c)).
-Proof.
-  intros srt l Hs. pose proof (erase_last_k_spec srt Hs) as He. split; [|split].
-  - exact (select_none_iff _ He l).
-  - exact (select_few _ He l).
-  - exact (select_many _ He l).
-Qed.
+Proof. exact sel_none_iff. Qed.
 Print Assumptions C59_none_iff_nothing_left.
 
 (* The evicted peer belongs to the most populous net group among the candidates left after all
@@ -127,14 +111,14 @@ Theorem C59_evicted_is_youngest_of_largest_group : forall srt l c, sort_spec srt
     forall x, In x rem' ->
       group_size rem' x < group_size rem' c \/
       (group_size rem' x = group_size rem' c /\ c_connected x <= c_connected c).
-Proof. intros srt l c Hs. exact (select_pick _ (erase_last_k_spec srt Hs) l c). Qed.
+Proof. exact sel_pick. Qed.
 Print Assumptions C59_evicted_is_youngest_of_largest_group.
 
 (* The executable predicate evaluated on the implementation's answer by the violation search is
    implied by the model for every sorter: a failing predicate is a failing property. *)
 Theorem C59_holds_sound : forall srt l r, sort_spec srt -> ids_unique l = true ->
   select_node_to_evict srt l = Ok r -> holds_C59 l (option_map c_id r) = true.
-Proof. intros srt l r Hs. exact (holds_sound _ (erase_last_k_spec srt Hs) l r). Qed.
+Proof. exact sel_holds_sound. Qed.
 Print Assumptions C59_holds_sound.
 
 (* non-vacuity: 40 eligible inbound peers in 3 net groups; the stable-sort instance evicts peer 37;
